@@ -20,7 +20,7 @@ def touched(pid):
         if d.startswith(pid + "-") and not re.search(r"-r\d+$", d):
             try:
                 for l in open(os.path.join(base, d, "patch.diff")):
-                    m = re.match(r"^@@ .* @@\s*(?:def|class)\s+(\w+)", l)
+                    m = re.match(r"^@@ .* @@\s*def\s+(\w+)", l) or re.match(r"^[ +-]\s*def\s+(\w+)", l)
                     if m:
                         out.add(m.group(1))
             except OSError:
@@ -28,6 +28,19 @@ def touched(pid):
     return sorted(out)
 
 
+CATEGORIES_4 = """  * change 1: a *substitution* - something is still done, but with the wrong thing: another variable / attribute / table / key / index /
+    boundary / comparison / order of operations, introduced while "simplifying" or "speeding up" code;
+  * change 2: an *omission* - something stops being done on some path: an update, a reset, a flush/close, a registration, a check,
+    a branch of a case distinction, typically on a path that ordinary runs rarely take.
+"""
+CATEGORIES_6 = """  * change 1: a *weakened safeguard* - a guard condition is relaxed or inverted on one side, an early exit / `continue` / default is
+    added "for robustness", an exception is swallowed, a validation is moved after the point where it matters, a clamp (min/max) is
+    dropped, a tolerance is applied on the wrong side;
+  * change 2: a *wrong table entry or wiring* - a constant, a dictionary / preset / dispatch-table entry, a default argument, a format
+    string, a key function, or the arguments of ONE call site (not the callee) are wrong: two values of the same type swapped, a sibling
+    constant used, an index shifted by one, a flag passed for another flag.
+Do not use `git stash` (the stash is shared between worktrees); to get back to the clean tree use `git checkout -- .`.
+"""
 for pid in CLAIMED:
     wt = "/tmp/seed%s_%s" % (rnd, pid)
     if not os.path.exists(wt):
@@ -58,10 +71,7 @@ ANCHORS (files / mechanisms): {json.dumps(p['anchors']['files'])} ; {json.dumps(
 YOUR TASK: produce TWO independent changes to the project, each of which BREAKS this property while the project still compiles and the
 test suite still gives exactly "9 failed, 386 passed". They model realistic maintenance mistakes, not sabotage: each should read like a
 plausible commit (an optimisation, a modernised idiom, a clean-up, support for a new case) whose author did not notice the consequence.
-  * change 1: a *substitution* - something is still done, but with the wrong thing: another variable / attribute / table / key / index /
-    boundary / comparison / order of operations, introduced while "simplifying" or "speeding up" code;
-  * change 2: an *omission* - something stops being done on some path: an update, a reset, a flush/close, a registration, a check,
-    a branch of a case distinction, typically on a path that ordinary runs rarely take.
+""" + (CATEGORIES_6 if int(rnd) >= 6 else CATEGORIES_4) + f"""
 Earlier changes already exist in these functions, so put yours ELSEWHERE (other functions, other mechanisms of the property): {', '.join(touched(pid)) or '(none)'}.
 Each change should be small (1-25 changed lines), and should need something specific to show: a particular input shape, option,
 number of threads/experiments, kill point, or sequence of runs - ordinary toy-data runs should look normal.
